@@ -579,6 +579,10 @@ func c09Run(c *core.Ctx, i int) {
 		runTextFamily(c, "unary-on-stored-values", unaryOnCallSource(c.Rng), nil)
 		return
 	}
+	if i >= tailStart && i%8 == 7 { // repetition copies nested maps, key order included
+		runTextFamily(c, "repeated-maps", repeatedMapSource(c.Rng), nil)
+		return
+	}
 	a := &aliasProg{r: c.Rng, funcs: map[string]bool{}}
 	a.prelude()
 	pairs := c09Creates * c09Updates
